@@ -293,6 +293,11 @@ def run_rules(ctx):
     prog = ctx.prog
     f = find_method(prog, "validators.RefResolver", "resolve_fragment")
     rule_through_resolve(ctx)
+    # R14.6/R14.7: the document a pointer is followed in is the one that was stored or that the handler returned -- null, "" and a
+    # root that is a JSON string included: found in the store as it is, not fetched again, not parsed again
+    from .c15 import rule_handler_documents, rule_store_first
+    rule_handler_documents(ctx, "R14.6")
+    rule_store_first(ctx, "R14.7")
     try:
         run_rules_dataflow(ctx)
         # the ordering analysis speaks about the order of operations; what it cannot see (an extra test on the token, a
